@@ -232,7 +232,7 @@ pub struct Factor {
     pub orders: Vec<Option<Vec<usize>>>, // None = AMD
     pub label: &'static str,
 }
-const NVARIANTS: u64 = 5;
+const NVARIANTS: u64 = 6;
 
 impl Factor {
     pub fn all_orders(n: usize) -> Self {
@@ -259,6 +259,20 @@ impl Factor {
         let pat = d.take(1 << np);
         (pat, signs, ord, variant)
     }
+    /// which diagonal entries are stored (variant 5 omits the diagonal of every odd column that
+    /// has an entry above the diagonal: a legal input with a structurally zero diagonal entry)
+    fn diag_stored(&self, pat: u64, variant: u64) -> Vec<bool> {
+        let n = self.n;
+        let mut v = vec![true; n];
+        if variant == 5 {
+            for (k, (_i, j)) in pairs(n).into_iter().enumerate() {
+                if pat >> k & 1 == 1 && j % 2 == 1 {
+                    v[j] = false;
+                }
+            }
+        }
+        v
+    }
     fn build(&self, pat: u64, signs: u64, variant: u64) -> (Dense, Vec<i8>) {
         let n = self.n;
         let sv: Vec<i8> = (0..n).map(|i| if signs >> i & 1 == 1 { -1 } else { 1 }).collect();
@@ -279,12 +293,13 @@ impl Factor {
                 a.set(j, i, v);
             }
         }
+        let stored = self.diag_stored(pat, variant);
         for i in 0..n {
             let v = match variant {
                 3 | 4 => sv[i] as f64, // +-1 diagonal, unit off-diagonals: exact zero pivots arise
                 _ => sv[i] as f64 * (n + 1 + i) as f64, // strictly diagonally dominant
             };
-            a.set(i, i, v);
+            a.set(i, i, if stored[i] { v } else { 0.0 });
         }
         (a, sv)
     }
@@ -367,7 +382,7 @@ impl Space for Factor {
         let (pat, signs, ord, variant) = self.decode(id);
         let (a, sv) = self.build(pat, signs, variant);
         json!({"A": a.rows(), "signs": sv, "perm": self.orders[ord], "variant": variant,
-               "variant_meaning": "0: dominant, Dsigns=true signs; 1: dominant, Dsigns=None; 2: dominant, regularisation off; 3: +-1 diag/unit offdiag, regularisation off (zero pivots -> Err); 4: same, regularisation on"})
+               "variant_meaning": "0: dominant, Dsigns=true signs; 1: dominant, Dsigns=None; 2: dominant, regularisation off; 3: +-1 diag/unit offdiag, regularisation off (zero pivots -> Err); 4: same, regularisation on; 5: as 2 but odd columns with an above-diagonal entry have no stored diagonal"})
     }
     fn bound(&self) -> Value {
         json!({"n": self.n, "orders": self.orders.len(), "patterns": "all symmetric patterns with full diagonal", "sign_vectors": 1u64<<self.n, "variants": NVARIANTS})
@@ -376,7 +391,8 @@ impl Space for Factor {
         let (pat, signs, ord, variant) = self.decode(id);
         let n = self.n;
         let (a, sv) = self.build(pat, signs, variant);
-        let triu = a.triu().to_csc_masked(&|i, j| i <= j && (i == j || a.at(i, j) != 0.0));
+        let stored = self.diag_stored(pat, variant);
+        let triu = a.triu().to_csc_masked(&|i, j| i <= j && ((i == j && stored[i]) || a.at(i, j) != 0.0));
         let regularize = matches!(variant, 0 | 1 | 4);
         let dsigns: Option<Vec<i8>> = match variant {
             0 | 4 => Some(sv.clone()),
@@ -396,7 +412,7 @@ impl Space for Factor {
                 ensure!(!regularize, "zero-pivot-error-with-regularisation", "variant {}", variant);
                 let Some(perm) = self.orders[ord].clone() else {
                     // AMD order unknown on error; accept only for variant 3
-                    ensure!(variant == 3, "zero-pivot-error-on-dominant-matrix", "");
+                    ensure!(variant == 3 || variant == 5, "zero-pivot-error-on-dominant-matrix", "");
                     ctx.outcome("err-zero-pivot");
                     return Ok(());
                 };
@@ -678,6 +694,8 @@ struct Base {
     a: Dense,          // symmetric
     perm: Option<Vec<usize>>,
     signs: Vec<i8>,
+    diag_stored: Vec<bool>,
+    logical_first: bool,
 }
 impl Histories {
     fn alphabet() -> Vec<Op> {
@@ -701,7 +719,7 @@ impl Histories {
         let n = 4;
         let mut a = Dense::zeros(n, n);
         let entries: &[(usize, usize, f64)] = match self.base {
-            0 => &[(0, 1, 1.0), (1, 2, -1.0), (2, 3, 1.0), (0, 3, 1.0)],
+            0 | 3 | 4 => &[(0, 1, 1.0), (1, 2, -1.0), (2, 3, 1.0), (0, 3, 1.0)],
             1 => &[(0, 1, 1.0), (0, 2, 1.0), (0, 3, -1.0), (1, 2, 1.0), (1, 3, 1.0), (2, 3, -1.0)],
             _ => &[(0, 2, 1.0), (1, 3, -1.0)],
         };
@@ -714,11 +732,19 @@ impl Histories {
             a.set(i, i, signs[i] as f64 * (6 + i) as f64);
         }
         let perm = match self.base {
-            0 => Some(vec![2, 0, 3, 1]),
+            0 | 4 => Some(vec![2, 0, 3, 1]),
             1 => None,
+            3 => Some(vec![0, 1, 2, 3]),
             _ => Some(vec![3, 2, 1, 0]),
         };
-        Base { a, perm, signs }
+        // base 3: columns 1 and 3 have no stored diagonal entry (structural zero on the diagonal)
+        let diag_stored = if self.base == 3 { vec![true, false, true, false] } else { vec![true; n] };
+        for i in 0..n {
+            if !diag_stored[i] {
+                a.set(i, i, 0.0);
+            }
+        }
+        Base { a, perm, signs, diag_stored, logical_first: self.base == 4 }
     }
     fn decode(&self, id: u64) -> Vec<Op> {
         let al = Self::alphabet();
@@ -743,29 +769,34 @@ impl Space for Histories {
         let ops = self.decode(id);
         let b = self.base();
         let n = b.a.n;
-        let a0 = b.a.triu().to_csc_masked(&|i, j| i <= j && (i == j || b.a.at(i, j) != 0.0));
+        let a0 = b.a.triu().to_csc_masked(&|i, j| i <= j && ((i == j && b.diag_stored[i]) || (i != j && b.a.at(i, j) != 0.0)));
         let nnz = a0.nnz();
-        let mk = |a: &CscMatrix<f64>, perm: Option<Vec<usize>>| {
+        let mk2 = |a: &CscMatrix<f64>, perm: Option<Vec<usize>>, logical: bool| {
             QDLDLFactorisation::<f64>::new(
                 a,
                 Some(QDLDLSettings::<f64> {
                     perm,
                     Dsigns: Some(b.signs.clone()),
+                    logical,
                     ..Default::default()
                 }),
             )
         };
-        let Ok(mut f) = mk(&a0, b.perm.clone()) else {
+        let mk = |a: &CscMatrix<f64>, perm: Option<Vec<usize>>| mk2(a, perm, false);
+        let Ok(mut f) = mk2(&a0, b.perm.clone(), b.logical_first) else {
             return Err(Violation::new("base-factorisation-failed", ""));
         };
         let perm_used = f.perm.clone();
         // index sets in the *input* nzval numbering
-        let diag_idx: Vec<usize> = (0..n).map(|j| a0.colptr[j + 1] - 1).collect();
+        let diag_idx: Vec<usize> = (0..n).filter(|j| b.diag_stored[*j]).map(|j| a0.colptr[j + 1] - 1).collect();
+        let diag_signs: Vec<i8> = (0..n).filter(|j| b.diag_stored[*j]).map(|j| b.signs[j]).collect();
         let offdiag_idx: Vec<usize> = (0..nnz).filter(|k| !diag_idx.contains(k)).collect();
         let set_a: Vec<usize> = offdiag_idx.clone();
-        let set_b: Vec<usize> = vec![diag_idx[1], offdiag_idx[0], diag_idx[3]];
+        let set_b: Vec<usize> = vec![diag_idx[1 % diag_idx.len()], offdiag_idx[0], diag_idx[diag_idx.len() - 1]];
         let sets = [set_a, set_b];
         let mut model = a0.nzval.clone();
+        #[allow(unused_assignments)]
+        let mut symbolic_only = b.logical_first;
         for op in &ops {
             match *op {
                 Op::Update(s, v) => {
@@ -796,9 +827,9 @@ impl Space for Histories {
                     }
                 }
                 Op::Offset(o) => {
-                    f.offset_values(&diag_idx, OFFSETS[o], &b.signs);
+                    f.offset_values(&diag_idx, OFFSETS[o], &diag_signs);
                     for (k, &i) in diag_idx.iter().enumerate() {
-                        if b.signs[k] > 0 {
+                        if diag_signs[k] > 0 {
                             model[i] += OFFSETS[o];
                         } else {
                             model[i] -= OFFSETS[o];
@@ -807,6 +838,7 @@ impl Space for Histories {
                 }
                 Op::Refactor => {
                     let _ = f.refactor();
+                    symbolic_only = false;
                 }
             }
             ctx.transitions += 1;
@@ -957,7 +989,7 @@ pub fn spaces(tier: &str, seed: u64) -> Vec<Box<dyn Space>> {
         v.push(Box::new(PermVectors { n }));
     }
     v.push(Box::new(Structure { maxdim: if thorough { 4 } else { 3 } }));
-    for base in 0..3 {
+    for base in 0..5 {
         for depth in 0..=(if thorough { 6 } else { 4 }) {
             v.push(Box::new(Histories { depth, base }));
         }
